@@ -10,6 +10,7 @@ from ..core import AnalysisError, FUNC, call_attr, calls_in, const, dotted, is_c
 from .c01 import field_rules
 
 EXPLANATION = [
+    'C18.bytes-of-number: no single-argument bytes() call is applied to a flag (an attribute or parameter declared bool, a comparison, a boolean expression): bytes(True) is one zero byte, not the byte 0x01.',
     'C18.division-guard: in the codec modules a divisor (or modulus) read from the packet being parsed is tested on the way to the division: a count of 0, which the matching serialiser writes for an empty list, cannot raise ZeroDivisionError.',
     'C18.decorator-order: every PDU class above HCI that is a dataclass and is registered by a decorator is made a dataclass first, so the registration decorator builds its field table from the declared fields.',
     'C18.avdtp-fragments: fragmentation of an AVDTP signalling message (packet count = ceil(len / fragment size), header sizes, slices) as decided by C19.avdtp-single: a message whose length is an exact multiple of the fragment size announces the right number of packets.',
@@ -785,7 +786,13 @@ def division_guard_rule(ctx):
     division_guard(ctx, 'C18.division-guard', ['bumble.avrcp', 'bumble.avdtp', 'bumble.avctp', 'bumble.a2dp', 'bumble.sdp', 'bumble.rfcomm', 'bumble.l2cap', 'bumble.att', 'bumble.smp', 'bumble.rtp', 'bumble.core'])
 
 
+def bytes_of_number_rule(ctx):
+    from ..generic_rules import bytes_of_number
+    bytes_of_number(ctx, 'C18.bytes-of-number', ['bumble.l2cap', 'bumble.att', 'bumble.smp', 'bumble.sdp', 'bumble.rfcomm', 'bumble.avdtp', 'bumble.avctp', 'bumble.avrcp', 'bumble.a2dp', 'bumble.core', 'bumble.rtp'])
+
+
 RULES = [
+    ('C18.bytes-of-number', bytes_of_number_rule),
     ('C18.division-guard', division_guard_rule),
     ('C18.decorator-order', decorator_order_rule),
     ('C18.avdtp-fragments', avdtp_fragments),
